@@ -32,7 +32,7 @@ TRUSTED_BASE = [
     "hand-written models Client/Pool.v, Client/Mux.v, Client/Fids.v, tied by harness/p9/c10_test.go + Client/MuxCases.v",
 ]
 
-ITEM = {"reply": "SReply %d", "unknown": "SUnknown", "wrong": "SWrong %d", "garbage": "SGarbage", "close": "SClose", "short": "SShort %d"}
+ITEM = {"reply": "SReply %d", "rlerror": "SReply %d", "unknown": "SUnknown", "wrong": "SWrong %d", "garbage": "SGarbage", "close": "SClose", "short": "SShort %d"}
 OBS = {"ok": "OOk", "err": "OErr", "foreign": "OForeign", "hang": "OHang", "none": "OHang", "panic": "OPanic"}
 
 
